@@ -746,6 +746,16 @@ class _Desugar(ast.NodeTransformer):
             return [a, b]
         return node
 
+    def visit_Subscript(self, node):
+        # 21. `X[slice(a, b)]` is `X[a:b]`
+        self.generic_visit(node)
+        sl = node.slice
+        if isinstance(sl, ast.Call) and isinstance(sl.func, ast.Name) and sl.func.id == 'slice' and len(sl.args) in (2, 3) and not sl.keywords:
+            none = lambda e: None if isinstance(e, ast.Constant) and e.value is None else e      # noqa: E731
+            node.slice = ast.copy_location(ast.Slice(lower=none(sl.args[0]), upper=none(sl.args[1]),
+                                                     step=none(sl.args[2]) if len(sl.args) == 3 else None), sl)
+        return node
+
     def visit_Raise(self, node):
         # 20. `raise (A if T else B)(..)` / `raise A(..) if T else B(..)` is `if T: raise A(..)` else `raise B(..)`
         self.generic_visit(node)
